@@ -1,6 +1,7 @@
 SPECIFICATION Spec
 CONSTANTS
-  Scen1 <- ScenACT
+  Scen1 <- ScenAT
+  ScenBusy <- ScenCT
   Scen2 <- JustNo
   ClearChoices = {FALSE}
   Installs = {TRUE, FALSE}
